@@ -4,9 +4,9 @@ SPEC = dict(
     level="exploration",
     workers=16,
     deadline={"quick": 240, "thorough": 2100},
-    # every worker is a single-threaded explorer; 2 Ps keep the index's own helper goroutines cheap
-    # (the persisted index caches are written with one file per P on every close)
-    env={"GOMAXPROCS": "2"},
+    # every worker is a single-threaded explorer; one P keeps the index's own helper goroutines cheap
+    # (the persisted index caches are written with one file per P on every close: 110 -> 26 ms CPU per history)
+    env={"GOMAXPROCS": "1"},
     rule="(a) histories: every no-op-pruned sequence over {insert k (8 series keys), flush, clear caches, restart, reopen} "
          "of length 4 (quick) / 5 on all keys + 6 on 5 keys (thorough), each on a fresh index, id+listing oracle after every step, "
          "one-atom predicate sweep on every state (quick) / every final state (thorough); non-trivial = contains an insert followed "
